@@ -67,6 +67,9 @@ func funcSource(w *World, fn *ssa.Function) string {
 }
 
 func runC08(c *Checker) {
+	// "keeps decrypting to exactly what was written" needs the record to reach the peer byte-exact
+	// whatever the writer does (partial writes, retries): the framing/flush obligations of C16
+	importLayers(c, "C16")
 	w := c.w
 	enc := mboxFunc(c, "(*mailbox.cipherState).Encrypt")
 	dec := mboxFunc(c, "(*mailbox.cipherState).Decrypt")
